@@ -346,3 +346,41 @@ pub fn mutate(r: &mut Rng, doc: &[u8]) -> Vec<u8> {
     }
     d
 }
+
+/// number literals around the largest finite double, at EVERY digit count of the mantissa: the first `k` digits of
+/// 2^1024 - 2^970 = 1.797693134862315708145…e308 (below the rounding boundary 2^1024 - 2^969 when cut), the same plus 1, 2 and
+/// 9 in the last place, written as an integer mantissa with an exponent, as a fraction and with a leading zero exponent: which
+/// of them are finite is decided by exact arithmetic on the other side
+pub fn overflow_boundary() -> Vec<Vec<u8>> {
+    const MAXD: &str = "17976931348623157081452742373170435679807056752584499659891747680315726078002853876058955863276687817154045895351438246423432132688946418276846754670353751698604991057655128207624549009038932894407586850845513394230458323690322294816580855933212334827479782620414472316873817718091929988125040402618412485836";
+    let mut out = Vec::new();
+    for k in 1..=40usize {
+        let digs = &MAXD[..k];
+        let exp = 309 - k as i64;
+        let mut variants: Vec<String> = vec![digs.to_string()];
+        // +1, +2, +9 in the last place (as decimal strings; carry handled by u128 for k <= 38)
+        if k <= 38 {
+            let v: u128 = digs.parse().unwrap();
+            for d in [1u128, 2, 9, 100] {
+                variants.push((v + d).to_string());
+            }
+            if v > 1 {
+                variants.push((v - 1).to_string());
+            }
+        }
+        for m in variants {
+            let e = exp - (m.len() as i64 - k as i64);
+            for sign in ["", "-"] {
+                out.push(format!("{sign}{m}e{e}").into_bytes());
+                out.push(format!("{sign}{m}E+{e}").into_bytes());
+                out.push(format!("{sign}{m}e{}", e - 1).into_bytes());
+                out.push(format!("{sign}{m}e{}", e + 1).into_bytes());
+                if m.len() > 1 {
+                    out.push(format!("{sign}{}.{}e{}", &m[..1], &m[1..], e + m.len() as i64 - 1).into_bytes());
+                    out.push(format!("{sign}{}.{}e{}", &m[..m.len() - 1], &m[m.len() - 1..], e + 1).into_bytes());
+                }
+            }
+        }
+    }
+    out
+}
